@@ -581,6 +581,7 @@ def _run(case, ctx, b, SPSDKError, MasterBootImage):  # noqa: C901
                 viol(f"create-config-refused:{export_mixin(b)}", exception=core.exc_brief(e))
             cfg2 = None
         if cfg2 is not None:
+            b.api_config = dict(cfg2)
             _compare_config(b, cfg2, out_dir, viol, got_app)
 
     # ---- 5. stage pairs -------------------------------------------------------------------------
@@ -865,6 +866,13 @@ def _reexport(ctx, b, par, data, rep, viol, SPSDKError):
         viol(f"reexport-differs:{export_mixin(b)}", first_diff=where, len1=len(data), len2=len(data2))
 
 
+def _num(v):
+    try:
+        return int(str(v), 0)
+    except (TypeError, ValueError):
+        return None
+
+
 def _cli(ctx, b, data, rep, want_app, dontcare, viol):
     """Same configuration through ``nxpimage mbi export`` / ``mbi parse`` (CliRunner)."""
     import yaml
@@ -910,4 +918,20 @@ def _cli(ctx, b, data, rep, want_app, dontcare, viol):
     if not _eq_outside(got, want_app, dontcare):
         viol("cli-parse-payload-differs", got_len=len(got), want_len=len(want_app), first_diff=_first_diff(got, want_app))
         return
+    # the configuration the tool WRITES is the one the API hands out for the same image: a setting that is missing or
+    # different in the file is lost for whoever builds from it again
+    api_cfg = getattr(b, "api_config", None)
+    written_path = os.path.join(out_dir, "mbi_config.yaml")
+    if api_cfg is not None and os.path.exists(written_path):
+        with open(written_path, encoding="utf-8") as f:
+            written = yaml.safe_load(f) or {}
+        ctx.count("cli_written_configs_compared")
+        for key, val in api_cfg.items():
+            if isinstance(val, (bool, int)) or (isinstance(val, str) and not os.path.sep in val and not val.endswith((".bin", ".yaml", ".yml"))):
+                if key not in written:
+                    viol(f"cli-written-configuration-omits-setting:{key}", api_value=val, keys_written=sorted(written)[:40])
+                    return
+                if str(written[key]) != str(val) and _num(written[key]) != _num(val):
+                    viol(f"cli-written-configuration-setting-differs:{key}", api_value=val, written=written[key])
+                    return
     ctx.count("cli_roundtrips")
